@@ -52,6 +52,7 @@ def U(name):
 
 
 RULE = (
+    "[added] predicted-tag probabilities on the AOEF path are also probed on an entry whose tag id is listed a second time with a valid probability; shared_uuid has a variant in which the match holds an earlier snapshot (same uuid, other tags) of the annotation. "
     "one case = one input arrangement, run through the constructor, model_validate(dict), model_validate_json and "
     "(when the format can express it) an edited AOEF document given to io.load. clip_evaluation: every subset of "
     "annotated {a0,a1} x predicted {p0,p1} x clip pairing x every match sequence up to the length bound over 15 "
